@@ -379,6 +379,7 @@ def check(ctx):
     for s in meta[:3] + meta[-2:]:
         ctx.sample(s)
     gradient_oracle(ctx)
+    backward_options_contract(ctx)
 
 
 # ---------------------------------------------------------------------------------------
@@ -516,6 +517,55 @@ def gradient_oracle(ctx):
             continue
         _cmp(ctx, "gradindep:solve_ivp", {"rep": rep}, ref, got, 1e-5, 1e-7)
         ctx.count(("gi-ivp", rep))
+
+
+def backward_options_contract(ctx):
+    """the options a backward solver receives are exactly the caller's bck_options (minus 'method' and the keys a functional
+    documents as its own): no forward option, no internal key leaks into them, and the callable given there is the one
+    that runs (seeded defects C18/4, C18/5, C18/6)"""
+    import xitorch as xt
+    from xitorch.linalg import solve, symeig
+    from xitorch.optimize import rootfinder
+    from xitorch._impls.linalg.solve import exactsolve
+    seen = []
+
+    def bck(A, B, E=None, M=None, **kw):
+        seen.append(dict(kw))
+        return exactsolve(A, B, E, M)
+
+    def fwd(A, B, E=None, M=None, **kw):
+        return exactsolve(A, B, E, M)
+    g = torch.Generator().manual_seed(ctx.seed + 91)
+    Am = (torch.randn(4, 4, dtype=DT, generator=g) + 4 * torch.eye(4, dtype=DT)).requires_grad_()
+    Bm = torch.randn(4, 1, dtype=DT, generator=g)
+    # solve: a forward-only option must not reach the backward solver
+    del seen[:]
+    X = solve(xt.LinearOperator.m(Am, is_hermitian=False), Bm, method=fwd, fwdonly=1, bck_options={"method": bck, "bckonly": 2})
+    torch.autograd.grad(X.sum(), Am)
+    ctx.count(("bck-contract", "solve"), nontrivial=True)
+    if not seen or any(k != {"bckonly": 2} for k in seen):
+        ctx.fail("oracle", "options:solve:backward-solver-options", {"fwd_options": {"fwdonly": 1}, "bck_options": {"method": "<callable>", "bckonly": 2}},
+                 seen[:2], "the backward solver is called with {'bckonly': 2}")
+    # symeig: its own keys (degen_atol, degen_rtol) are consumed, the rest goes to the shifted solve
+    del seen[:]
+    S = (Am + Am.T)
+    e, V = symeig(xt.LinearOperator.m(S, is_hermitian=True), 2, method="custom_exacteig",
+                  bck_options={"method": bck, "degen_atol": 1e-9, "degen_rtol": 1e-7, "bckonly": 3})
+    torch.autograd.grad(e.sum() + (V * V).sum(), Am)
+    ctx.count(("bck-contract", "symeig"), nontrivial=True)
+    if not seen or any(k != {"bckonly": 3} for k in seen):
+        ctx.fail("oracle", "options:symeig:backward-solver-options",
+                 {"bck_options": {"method": "<callable>", "degen_atol": 1e-9, "degen_rtol": 1e-7, "bckonly": 3}}, seen[:2],
+                 "the shifted solve is called with {'bckonly': 3}")
+    # rootfinder: the callable is the solver of the transposed Jacobian system
+    del seen[:]
+    a = torch.tensor([0.7, 1.1, 0.4], dtype=DT, requires_grad=True)
+    y = rootfinder(lambda y, a: y ** 3 + a * y - 1.0, torch.zeros(3, dtype=DT), params=(a,), bck_options={"method": bck, "bckonly": 4})
+    torch.autograd.grad(y.sum(), a)
+    ctx.count(("bck-contract", "rootfinder"), nontrivial=True)
+    if not seen or any(k != {"bckonly": 4} for k in seen):
+        ctx.fail("oracle", "options:rootfinder:backward-solver-options", {"bck_options": {"method": "<callable>", "bckonly": 4}}, seen[:2],
+                 "the backward solver is called with {'bckonly': 4}")
 
 
 def search(ctx):
